@@ -309,3 +309,74 @@ class SupportScalarZeroAbsorbs(Contract):
         return a.pk * a.f
 
     ensures = [prop("step", lambda a, old, r: eq(r, 0))]
+
+
+# -- piecewiseLinearMap over a finite map of ANY size ---------------------------------------------
+from pyvc import ghost as _ghost
+
+
+def _plm_rebind():
+    return {"min": _ghost.min_, "max": _ghost.max_, "__genexpr__": True}
+
+
+@contract
+class PiecewiseLinearMap(Contract):
+    """piecewiseLinearMap(v, mapping) for a finite mapping of any size (domain predicate +
+    value function): the mapped value at a key, linear interpolation between the two
+    ADJACENT keys around v, and beyond the ends the end key's offset; identity on the empty
+    map.  Ghost arguments a, b (adjacent keys around v) and e (an extreme key) are
+    universally quantified by being inputs."""
+    module = "fontTools.varLib.models"
+    qualname = "piecewiseLinearMap"
+    props = ("C09", "C05", "C10", "C19")
+    rebind = staticmethod(_plm_rebind)
+    variants = ("at-key", "between", "below", "above", "empty")
+    timeout_ms = 20000
+
+    def args(self, S, variant):
+        M = _ghost.SymMapping("M")
+        return dict(v=S.real("v"), mapping=M, _a=S.real("a"), _b=S.real("b"), _variant=variant)
+
+    def requires(self, a):
+        import z3
+        from pyvc.sym import SymBool
+        M = a.mapping
+        dom = lambda x: SymBool(M.dom(x.t))
+        M.add_point(a.v)
+        if a._variant == "empty":
+            M.add_fact(lambda k: z3.Not(M.dom(k)))
+            return True
+        if a._variant == "at-key":
+            return dom(a.v)
+        if a._variant == "between":
+            M.add_point(a._a)
+            M.add_point(a._b)
+            M.add_fact(lambda k: z3.Implies(M.dom(k), z3.Or(k <= a._a.t, k >= a._b.t)))   # adjacency
+            return And(dom(a._a), dom(a._b), a._a < a.v, a.v < a._b)
+        if a._variant == "below":      # _a is the least key and v is below it
+            M.add_point(a._a)
+            M.add_fact(lambda k: z3.Implies(M.dom(k), k >= a._a.t))
+            return And(dom(a._a), a.v < a._a)
+        M.add_point(a._b)
+        M.add_fact(lambda k: z3.Implies(M.dom(k), k <= a._b.t))
+        return And(dom(a._b), a.v > a._b)
+
+    def call(self, f, a):
+        return f(a.v, a.mapping)
+
+    @staticmethod
+    def _post(a, r):
+        from pyvc.sym import SymNum
+        M = a.mapping
+        val = lambda x: SymNum(M.val(x.t))
+        if a._variant == "empty":
+            return eq(r, a.v)
+        if a._variant == "at-key":
+            return eq(r, val(a.v))
+        if a._variant == "between":
+            return eq(r, val(a._a) + div((val(a._b) - val(a._a)) * (a.v - a._a), a._b - a._a))
+        if a._variant == "below":
+            return eq(r, a.v + val(a._a) - a._a)
+        return eq(r, a.v + val(a._b) - a._b)
+
+    ensures = [prop("piecewise-linear-semantics", lambda a, old, r: PiecewiseLinearMap._post(a, r))]
